@@ -123,6 +123,8 @@ def rand_marked(rng, depth, counter, parent_is_list=False):
         t.insert(rng.randint(0, len(t)), {'$output': mark})
         if rng.random() < 0.2:
             t.insert(rng.randint(0, len(t)), {'$output': mark})
+        if rng.random() < 0.12:
+            t.insert(rng.randint(0, len(t)), {'$output': not mark})
     return t
 
 
@@ -173,16 +175,18 @@ def check_case(ctx, case):
     res.labels.add('markers:%s' % (nmarks if nmarks < 4 else '4+'))
     if 'sweep' in case:
         res.labels.add('sweep:n=%d' % case['sweep'])
+    both = False
     for d in docs:
         for p, n in walk(d):
             if isinstance(n, list) and any(isinstance(x, dict) and x == {'$output': True} for x in n) and any(isinstance(x, dict) and x == {'$output': False} for x in n):
-                return res.skip('list carrying both marker entries')
+                both = True
     expect = []
-    per_doc = []
+    expect_alt = []
     for d in docs:
-        o = model.outputs(d)
-        per_doc.append(o)
-        expect += o
+        expect += model.outputs(d)
+        expect_alt += model.outputs(d, both='selected')
+    if both:
+        res.labels.add('list-with-both-markers:either-reading')
     ops = []
     for rep in range(3):
         for i, d in enumerate(docs):
@@ -204,6 +208,8 @@ def check_case(ctx, case):
     got = [json.loads(l) for l in b0.decode().splitlines() if l.strip()]
     if any(s == '$output' for s in strings_of(got)):
         return res.violate('model', 'a $output marker survived into the output', docs=docs, got=got)
+    if both and sorted(canon(x) for x in got) == sorted(canon(x) for x in expect_alt):
+        expect = expect_alt
     if sorted(canon(x) for x in got) != sorted(canon(x) for x in expect):
         return res.violate('model', 'output documents are not exactly the selected subtrees', docs=docs, expect=expect, got=got)
     # document order: outputs of document i come before those of document i+1
